@@ -282,6 +282,10 @@ pub struct Scenario {
     /// (`ServerRef::new_worker_query`, what every autoalloc tick does)
     #[serde(default)]
     pub worker_query: bool,
+    /// the server starts by restoring this journal (hex of the file's bytes) with the real restore
+    /// sequence; the exploration then begins in the restored state ("start from a non-initial state")
+    #[serde(default)]
+    pub restore_journal_hex: Option<String>,
 }
 
 impl Scenario {
@@ -299,6 +303,7 @@ impl Scenario {
             max_states: 400_000,
             depth_bound: 0,
             worker_query: false,
+            restore_journal_hex: None,
         }
     }
     pub fn prefill(mut self, reserve: u32, max: u32) -> Self {
